@@ -27,7 +27,7 @@ const c04L = 1 << 16
 
 func init() {
 	core.Register(c04{base{id: "C04", level: "fault_enumeration", quickB: 16, thoroughB: 32,
-		rule: "two parts, both in isolated child processes (a panic anywhere kills the child = crash witness). (1) fault enumeration, exhaustive: for each canonical session (auth ok/rejected, simple, multi-statement, extended batch, error batch, text and binary COPY ok/aborted, oversized message, Terminate, generated C15 sessions; 10 in quick, 40 in thorough) the fault-free run's number of transport Read calls, Write calls and inbound bytes is measured, then the session is re-run with the transport failing at EVERY k-th Read (error and EOF), EVERY k-th Write (error and short write) and EVERY inbound byte offset. (2) input exploration: structure-aware mutation of valid streams (truncate at any offset, set any length/count field to 0,1,max-1,max,2^31,2^32-1, flip type bytes, duplicate/reorder/delete messages, splice random bytes) on fresh connections (incl. SSLRequest and password phases), after a valid startup incl. COPY mode, and inside upgraded TLS connections; handlers call ParseParameters on every query, Parameter.Scan on every parameter and the binary COPY row reader. Oracles: process survives; after EOF/transport failure the server's own Close is observed and at most 64 further transport calls are made (spin detector); no (*Server).serve goroutine is left at batch end; a fresh probe connection is served after every 200 cases; allocation sanitizer: no object allocated by library code exceeds 8L+4MiB; no fabricated data: query texts reaching the parser are, in order, a subsequence of the texts carried by well-framed Query/Parse frames of the input, parameter values and COPY chunks are byte strings of the input. Non-trivial = fault at a position the fault-free run reaches, or a mutated stream; distinct = (session, fault kind, position) / mutation shape.",
+		rule: "two parts, both in isolated child processes (a panic anywhere kills the child = crash witness). (1) fault enumeration, exhaustive: for each canonical session (auth ok/rejected, simple, multi-statement, extended batch, error batch, text and binary COPY ok/aborted, oversized message, Terminate, generated C15 sessions; 10 in quick, 40 in thorough) the fault-free run's number of transport Read calls, Write calls and inbound bytes is measured, then the session is re-run with the transport failing at EVERY k-th Read (error and EOF), EVERY k-th Write (error and short write) and EVERY inbound byte offset. (2) input exploration: structure-aware mutation of valid streams (truncate at any offset, set any length/count field to 0,1,max-1,max,2^31,2^32-1, flip type bytes, duplicate/reorder/delete messages, splice random bytes, well-framed Bind messages whose format-code, value and result-format counts are mutually independent) on fresh connections (incl. SSLRequest and password phases), after a valid startup incl. COPY mode, and inside upgraded TLS connections; handlers call ParseParameters on every query, Parameter.Scan on every parameter and the binary COPY row reader. Oracles: process survives; after EOF/transport failure the server's own Close is observed and at most 64 further transport calls are made (spin detector); no (*Server).serve goroutine is left at batch end; a fresh probe connection is served after every 200 cases; allocation sanitizer: no object allocated by library code exceeds 8L+4MiB; no fabricated data: query texts reaching the parser are, in order, a subsequence of the texts carried by well-framed Query/Parse frames of the input, parameter values and COPY chunks are byte strings of the input. Non-trivial = fault at a position the fault-free run reaches, or a mutated stream; distinct = (session, fault kind, position) / mutation shape.",
 		need:        []string{"fault_runs", "read_faults", "write_faults", "byte_offset_faults", "mutated_inputs", "server_close_observed", "probe_connections_served", "leak_checks", "alloc_profile_checks", "fabrication_checks"},
 		assumptions: append([]string{"allocation bound is c*L+K (8L+4MiB): the library allocates in 4 KiB granules and its 16-bit count fields cap tables at ~2.6 MiB regardless of L; a malformed body may be answered by an ErrorResponse or by closing the connection; after a frame with a declared length below 4 the input is not judged for fabrication"}, commonAssumptions...)}})
 }
@@ -112,7 +112,7 @@ func c04canonical(rng *core.Rng, n int) []c04session {
 	}
 	for i := len(all); i < n; i++ {
 		s := c15gen(rng, fmt.Sprintf("canon%d", i), false)
-		cs := c04session{Name: fmt.Sprintf("generated-%d[%s]", i, strings.Join(s.Kinds, ",")), Msgs: [][]byte{pg.Startup([][2]string{{"user", s.User}})}}
+		cs := c04session{Name: fmt.Sprintf("generated-%d[%s]", i, strings.Join(s.Kinds, ",")), Msgs: [][]byte{pg.Startup(append([][2]string{{"user", s.User}}, s.Params...))}}
 		cs.Msgs = append(cs.Msgs, s.Steps...)
 		cs.Msgs = append(cs.Msgs, pg.Terminate())
 		// generated sessions carry their own programs
@@ -392,7 +392,29 @@ func c04mutate(rng *core.Rng, msgs [][]byte) ([][]byte, string) {
 	i := rng.Intn(len(out))
 	m := out[i]
 	vals := []uint32{0, 1, 3, 4, 5, 0x7fffffff, 0x80000000, 0xffffffff, 0xfffffffe, c04L + 4, c04L + 5, 65535, 65536}
-	switch k := rng.Intn(11); k {
+	switch k := rng.Intn(13); k {
+	case 11, 12: // a well-framed Bind whose three counts are independent of each other (fewer / more format codes than values)
+		nf, nv, nr := rng.Intn(6), rng.Intn(6), rng.Intn(6)
+		pf, rf := make([]int16, nf), make([]int16, nr)
+		for j := range pf {
+			pf[j] = int16(rng.Intn(2))
+		}
+		for j := range rf {
+			rf[j] = int16(rng.Intn(2))
+		}
+		params := make([][]byte, nv)
+		for j := range params {
+			if rng.Intn(5) > 0 {
+				params[j] = []byte(fmt.Sprint(rng.Intn(100000)))
+			}
+		}
+		b := pg.Bind(core.Pick(rng, []string{"", "p"}), core.Pick(rng, []string{"", "s", "b", "nosuch"}), pf, params, rf)
+		if k == 11 {
+			out[i] = b
+		} else {
+			out = append(out[:i+1], append([][]byte{b, pg.Execute("", 0), pg.Sync()}, out[i+1:]...)...)
+		}
+		return out, fmt.Sprintf("bind-counts(%d,%d,%d)", nf, nv, nr)
 	case 0: // truncate the stream after a random offset inside message i
 		if len(m) > 1 {
 			out[i] = m[:1+rng.Intn(len(m)-1)]
